@@ -34,8 +34,8 @@ def dynamic_obligations(metas, tier, wd):
         if why or k in SAMPLE or tier == 'thorough':
             obs.append(entry_ob(k, e['name'], why or 'sample / thorough'))
     return obs
-PLAN = {
-    'property': 'C18',
+CORE_PLAN = {
+    'property': 'C18', 'part': 'core',
     'units': [U, R],
     'harness_files': ['harness/c18.c'], 'contract_files': [], 'spec_files': ['spec/regs_spec.h'],
     'native': {'bridges': ['replay/bridge_proc.cpp']},
@@ -48,3 +48,28 @@ PLAN = {
     'assumptions': ['register state within hardware widths (wf_regs)'],
     'not_covered': ['DMA / AHBM address arithmetic (dma.cpp DoDma: unmasked 32-bit addresses into DataReadA32 are masked there; AHBM is host memory behind callbacks), MMIO write sequences (C12), use of uninitialised or freed memory (no heap in the extracted code; uninitialised members are C17\'s subject)'],
 }
+
+# ---- MMIO part: every 16-bit value written to (or a read of) every MMIO offset, over arbitrary well-formed peripheral state
+from mmio_unit import MMIO_UNIT
+MU = copy.deepcopy(MMIO_UNIT)
+def mmio_obligations(metas, tier, wd):
+    cells = metas['mmio'].get('mmio_cells') or {}
+    if not cells.get('bound'): raise SystemExit('UNDECIDED property=C18: the extraction bound no MMIO cell')
+    bound = {int(k, 16) for k in cells['bound']}
+    reps = [next(x for x in range(lo, 0x800, 2) if x not in bound) for lo in (0x000, 0x280)] + [0x7FF]
+    def mob(a, tag):
+        return {'id': 'mmio_safe_%s' % tag, 'entry': 'h_mmio_safe', 'enforce': [], 'replace': [], 'unwind': 18, 'unwindset': ['Dma_DoDma.0:1', 'Ahbm_Read32.0:1', 'Ahbm_WriteInternal.0:1'], 'timeout': 900,
+                'defines': ['-DCELL_A=0x%03X' % a], 'expect_classes': {'assertion': 1}, 'min_obligations': 3, 'checks': CHECKS, 'standard_checks': False, 'object_bits': 12, 'native': False}
+    return [mob(a, '%03X' % a) for a in sorted(bound)] + [mob(a, 'default_%03X' % a) for a in reps]
+MMIO_PLAN = {
+    'property': 'C18', 'part': 'mmio',
+    'units': [MU],
+    'harness_files': ['harness/c12.c'], 'contract_files': [], 'spec_files': ['spec/mmio_layout.h', 'spec/timer_spec.h', 'spec/btdmp_spec.h'],
+    'obligations': [], 'dynamic_obligations': mmio_obligations,
+    'trusted_base': ['MMIO binding table generated from the AST of MMIORegion::MMIORegion on every run (extract/mmio_table.py; what is translated and what is re-expressed is stated in C12\'s evidence)',
+                     'offsets the constructor leaves alone share one closure pair (Cell::Cell()); three representatives are checked'],
+    'assumptions': ['offset < 0x800 (reduced by both callers: C11)', 'peripheral state well-formed on entry (wf_mmio); the obligation proves every register access re-establishes it, so it is an invariant from construction/Reset (C17) on',
+                    'a write of 0x40C0 to 0x1DE starts a DMA transfer, which is not followed here'],
+    'not_covered': ['DMA transfers with guest-chosen 32-bit addresses and AHBM bursts (dma.cpp / ahbm.cpp DoDma, Tick, Read/Write): not yet under a safety obligation; use of freed memory inside the default cells\' closures (they capture `this` of a temporary Cell and read `index` through it for a diagnostic printf, which the extraction drops)'],
+}
+PLAN = {'property': 'C18', 'parts': [CORE_PLAN, MMIO_PLAN]}
